@@ -440,3 +440,77 @@ Proof.
   - constructor.
   - constructor.
 Qed.
+
+(* ---------------- corollaries in the words of the properties ---------------- *)
+
+(* while a task holds resources nothing it holds is offered to another task *)
+Theorem held_not_offered ns0 c s t off co tg sl :
+  SInv ns0 s -> wf_req t -> schedule_task c s t = inr (off, co, tg, Some sl) ->
+  forall n j, (touched_c n j sl = true -> touched_c n j (hslots (heldg s)) = false) /\
+              (touched_g n j sl = true -> touched_g n j (hslots (heldg s)) = false).
+Proof.
+  intros HI Hw H n j. pose proof (sinv_nonneg _ _ HI) as Hnn. destruct HI as (I & Hnd & _).
+  pose proof (schedule_task_fresh _ _ _ _ _ _ _ Hnd Hnn Hw H) as F. split; intro Ht.
+  - pose proof (fr_c _ _ F n j Ht) as Hf. rewrite (inv_c _ _ _ I n j) in Hf.
+    destruct (core_at ns0 n j); [|discriminate].
+    destruct (touched_c n j (hslots (heldg s))); [discriminate|reflexivity].
+  - pose proof (fr_g _ _ F n j Ht) as Hf. rewrite (inv_g _ _ _ I n j) in Hf.
+    destruct (gpu_at ns0 n j); [|discriminate].
+    destruct (touched_g n j (hslots (heldg s))); [discriminate|reflexivity].
+Qed.
+
+(* the four clauses of C01 for the held set of a state satisfying the invariant *)
+Definition no_oversubscription (ns0 : list node) (h : held) : Prop :=
+  (forall n j, count_c n j (hslots h) <= 1) /\
+  (forall n j, gshare_at n j (hslots h) <= 64) /\
+  (forall n cap, lfs_at ns0 n = Some cap -> sum_lfs n (hslots h) <= cap) /\
+  (forall n cap, mem_at ns0 n = Some cap -> sum_mem n (hslots h) <= cap) /\
+  (forall n j, touched_c n j (hslots h) = true -> core_at ns0 n j = Some Free) /\
+  (forall n j, touched_g n j (hslots h) = true -> gpu_at ns0 n j = Some Free).
+
+Theorem inv_no_oversubscription ns0 ns h : Inv ns0 ns h -> no_oversubscription ns0 h.
+Proof.
+  intro I. repeat split.
+  - apply (inv_dc _ _ _ I).
+  - apply (inv_gpu_total _ _ _ I).
+  - apply (inv_lfs_total _ _ _ I).
+  - apply (inv_mem_total _ _ _ I).
+  - apply (inv_c0 _ _ _ I).
+  - apply (inv_g0 _ _ _ I).
+Qed.
+
+Theorem reachable_no_oversubscription ns0 c ops w' :
+  NoDup (map n_idx ns0) -> (forall nd, In nd ns0 -> 0 <= n_lfs nd /\ 0 <= n_mem nd) ->
+  Forall op_good ops -> run_disciplined c (init_world ns0) ops ->
+  run c (init_world ns0) ops = Some w' ->
+  no_oversubscription ns0 (heldg (st w')).
+Proof.
+  intros Hnd Hnn Hg Hd Hr.
+  destruct (run_ok ns0 c ops _ _ (winv_init ns0 Hnd Hnn) Hg Hd Hr) as ((I & _) & _).
+  apply (inv_no_oversubscription _ _ _ I).
+Qed.
+
+Theorem reachable_quiescent ns0 c ops w' :
+  NoDup (map n_idx ns0) -> (forall nd, In nd ns0 -> 0 <= n_lfs nd /\ 0 <= n_mem nd) ->
+  Forall op_good ops -> run_disciplined c (init_world ns0) ops ->
+  run c (init_world ns0) ops = Some w' -> heldg (st w') = [] ->
+  active_cnt (st w') = 0 /\
+  (forall n j, core_at (nodes (st w')) n j = core_at ns0 n j) /\
+  (forall n j, gpu_at (nodes (st w')) n j = gpu_at ns0 n j) /\
+  (forall n, lfs_at (nodes (st w')) n = lfs_at ns0 n) /\
+  (forall n, mem_at (nodes (st w')) n = mem_at ns0 n).
+Proof.
+  intros Hnd Hnn Hg Hd Hr Hh.
+  destruct (run_ok ns0 c ops _ _ (winv_init ns0 Hnd Hnn) Hg Hd Hr) as ((I & _ & Hac) & _).
+  rewrite Hh in *. split; [exact Hac|]. apply inv_quiescent. exact I.
+Qed.
+
+Theorem reachable_active_count ns0 c ops w' :
+  NoDup (map n_idx ns0) -> (forall nd, In nd ns0 -> 0 <= n_lfs nd /\ 0 <= n_mem nd) ->
+  Forall op_good ops -> run_disciplined c (init_world ns0) ops ->
+  run c (init_world ns0) ops = Some w' ->
+  active_cnt (st w') = Z.of_nat (length (heldg (st w'))).
+Proof.
+  intros Hnd Hnn Hg Hd Hr.
+  destruct (run_ok ns0 c ops _ _ (winv_init ns0 Hnd Hnn) Hg Hd Hr) as ((_ & _ & Hac) & _). exact Hac.
+Qed.
